@@ -1667,6 +1667,11 @@ def _compute_net_flows(netlist: _nir.Netlist):
         for signal in module.signal_names:
             for net in netlist.signals[signal]:
                 use_net(net, module_idx)
+            # The fields of the signal are shown in each module that names it; a field whose format
+            # is a computed expression consists of nets that may be defined in another module.
+            for field in netlist.signal_fields.get(signal, {}).values():
+                for net in field.value:
+                    use_net(net, module_idx)
 
 
 def _compute_ports(netlist: _nir.Netlist):
